@@ -71,6 +71,24 @@ CHECKS["C03"] = dict(ref="5/C03", text="ParseOutcome.tla is the relation between
     "valid files (thorough: exhaustively over an 18-byte set), detects looping at end of input by counting reads after EOF, survives process exits, and TLC "
     "validates every outcome.", note="The corpus is finite (mutations of ~30 valid files); 'all byte strings' is not proved. Trusted: TLC, CommunityModules.",
     tech="TLA+ outcome relation (ParseOutcome.tla); mutational corpus run on the Go parsers with a post-EOF read counter; recorded outcomes validated by TLC (Trace_Parse)")
+
+CHECKS["C07"] = dict(ref="5/C07", text="DnaDist.tla has a counting layer in exact integers (comparable sites per gap mode, disjoint-set differences, transitions / transversions, "
+    "ambiguity shares in twelfths, quarter-unit weights, rm-gaps site selection) and an estimator layer evaluated by TLC in IEEE doubles through the F64 module: "
+    "raw, p, JC69, K2P, F81, F84 (PHYLIP a/b/c form), TN93 and their gamma variants written from the literature, plus the matrix layer (symmetry, diagonal, ranges, "
+    "class of an undefined estimate: NaN or twice the largest defined entry; zero for pairs without counted difference; corrected >= observed proportion). TLC "
+    "generates all row pairs of length 2-3 over {A,C,G,T,R,-} x 7 models x gamma, an option cube on gapped / ambiguous alignments and saturation ladders; the real "
+    "DistMatrix is run on them and on seeded alignments (model objects reused across calls) and TLC recomputes and compares every entry (relative 1e-9).",
+    note="Real-valued laws hold to 1e-9 relative on the explored inputs, not for all reals. Trusted: TLC, CommunityModules, java.lang.Math (log, pow) and the 100-line F64 glue class.",
+    tech="TLA+ specification of the estimators (DnaDist.tla, IEEE doubles via a TLC module override); TLC-generated alignments replayed into Go; recorded matrices validated by TLC (Trace_Dist)")
+CHECKS["C08"] = dict(ref="5/C08", text="Functional half: pairs of real DistMatrix calls on transformed alignments (column permutation, k-fold replication vs integer weight k vs raw "
+    "scaling, explicit unit weights, reverse complement, row permutation, 1..32 threads) are validated by TLC (each call against the estimator specification, each pair "
+    "against its relation; bit-identity across thread counts). Concurrency half: DistMatrixConc.tla specifies the producer / worker-pool / WaitGroup protocol at the grain of "
+    "the observation hooks; TLC checks Termination, ErrorReturned, MutexOK, NoRace (error slots, cells), Determinate exhaustively for every failure position and kind, "
+    "1-3 workers, capacities 1-2 (and rejects the pinned protocol as a sanity check); caller-supplied models failing at the k-th evaluation or row request are run on the "
+    "real code (must return, with the error); per-goroutine hook logs of free-running executions are validated by TLC as behaviours of the protocol (interleaving search, "
+    "all invariants evaluated on the way); the same workloads run under the Go race detector with GOMAXPROCS varied.",
+    note="Interleavings are exhaustive in the model for small constants and observed (not enumerated) in the code; data races are decided by the race detector on the executions that occur.",
+    tech="TLA+ protocol specification (DistMatrixConc.tla) model-checked by TLC; hook logs of the real goroutines validated against it (Trace_Conc); relations between calls validated by TLC (Trace_Dist); Go race detector as observation")
 NA = []
 def main():
     props = [json.loads(l)["id"] for l in open(os.path.join(V, "properties.jsonl"))]
